@@ -156,6 +156,21 @@ fn verif_search() {
     let which = std::env::var("VERIF_SEARCH").unwrap_or_else(|_| "c01".into());
     let corpus = corpus();
     println!("SEARCH property={} inputs={}", which, corpus.len());
+    if which == "c11" {
+        // highly compressible inputs: the zstd frame is thousands of times smaller than what it expands to
+        let mut big: Vec<Vec<u8>> = vec![vec![0u8; 300_000], (0..400_000usize).map(|i| ((i / 7) % 251) as u8).collect()];
+        let p = plain(1500, 77); let raw = stored_stream(&vec![b'a'; 60_000], 65535);
+        let mut z = zlib_wrap([0x78, 0x9c], &raw, &vec![b'a'; 60_000]); z.extend_from_slice(&p); big.push(z);
+        for f in big.iter() {
+            let expanded = match expand_zlib_chunks(f, 0) { Ok(e) => e, Err(e) => report(&which, &format!("expand_zlib_chunks Err {}", e), f) };
+            let z = match compress_zstd(f, 0) { Ok(z) => z, Err(e) => report(&which, &format!("compress_zstd Err {}", e), f) };
+            let size = expanded.len();
+            for cap in [size, size + 1, 128 << 20] {
+                match decompress_zstd(&z, cap) { Ok(o) => { if &o != f { report(&which, &format!("wrong data at capacity {}", cap), f); } }, Err(e) => report(&which, &format!("Err with sufficient capacity {} (expanded size {}, frame {} bytes): {}", cap, size, z.len(), e), f) }
+            }
+            if size > 0 { if decompress_zstd(&z, size - 1).is_ok() { report(&which, &format!("Ok with capacity {} < expanded size {}", size - 1, size), f); } }
+        }
+    }
     if which == "c06" {
         // IDAT runs cut into several chunks (so that the plain zlib scan cannot see the stream) or behind a zlib header
         // that is not in the signature table, followed by: IEND, nothing at all, a few stray bytes, a truncated chunk
